@@ -835,11 +835,21 @@ class Exec:
         i = None
         for k in idxs:
             if k < len(args) and not is_c(args[k]) and isinstance(args[k], z3.ExprRef):
-                vs = vals_of(args[k], 64)
+                vs = vals_of(args[k], 200)
                 if vs is not None and len(vs) > 1:
                     i = k
                     break
         if i is None:
+            if os.environ.get('VERIF_DEBUG_SPLIT'):
+                for k in idxs:
+                    if k < len(args) and isinstance(args[k], z3.ExprRef):
+                        t_ = args[k]
+                        def _why(x, d=0):
+                            if x.op == 'bv': return 'bv'
+                            if x.op == 'ite':
+                                return 'ite[%s|%s]' % (_why(x.args[1], d+1), _why(x.args[2], d+1)) if d < 3 and not z3._ctree(x) else ('CT%d' % z3._ctree(x) if z3._ctree(x) else 'ite?')
+                            return x.op + '(' + ','.join(_why(y, d+1) for y in x.args if hasattr(y, 'op'))[:200] + ')'
+                        print('NOSPLIT', fname.rsplit('.', 1)[-1], pos, _why(t_)[:500], file=sys.stderr)
             return None
         ctx.stats['splits'] = ctx.stats.get('splits', 0) + 1
         outs = []
